@@ -36,12 +36,13 @@ ASSUMPTIONS = [
     "step names that end in a digit and instantiate a component: either a correct compilation or a located "
     "DSLInvalidError is accepted (the model accepts such names, FlowIR reserves trailing digits for replicas)",
     "no replicate/aggregate attributes, no key outputs / interface, no input./data. entry parameters",
-    "a compile that runs that burns more than 5 s (and again 10 s) of CPU time for a <=8-step namespace is reported as a hang",
+    "a compile that burns more than 5 s (and, on a second attempt, 10 s) of CPU time for a <=8-step namespace is "
+    "reported as a hang (never shrunk: the mutated document is reported as generated)",
     "'lists the offending locations': every underlying error of DSLInvalidError must be a DSLInvalidFieldError; an "
     "error list in which no entry has a non-empty location is a violation; for mutations confined to one template "
     "some reported location must lie inside that template (['workflows'|'components', index, ...])",
 ]
-TIERS = {"quick": {"shards": 8, "budget": 100}, "thorough": {"shards": 16, "budget": 1500}}
+TIERS = {"quick": {"shards": 8, "budget": 240}, "thorough": {"shards": 16, "budget": 2400}}
 
 TIME_LIMIT_S = 5        # CPU seconds (a compile + validate of these namespaces takes ~0.02 s)
 # mutation kinds whose site names one template: some reported location must lie inside that template
@@ -69,7 +70,7 @@ class _TimeLimit:
 
     def __enter__(self):
         self.old = signal.signal(signal.SIGVTALRM, self._fire)
-        signal.setitimer(signal.ITIMER_VIRTUAL, self.seconds)
+        signal.setitimer(signal.ITIMER_VIRTUAL, self.seconds, 1.0)   # re-fires in case something swallows it
 
     def __exit__(self, *a):
         signal.setitimer(signal.ITIMER_VIRTUAL, 0)
@@ -241,8 +242,8 @@ def check_invalid(case, ctx: Ctx):
 
 
 def shard(ctx: Ctx):
-    explore(ctx, "valid", G.namespace_case(), check_valid, ctx.n(2400, 120000), batch=150)
-    explore(ctx, "invalid", MU.invalid_case(), check_invalid, ctx.n(1600, 60000), batch=100)
+    explore(ctx, "valid", G.namespace_case(), check_valid, ctx.n(2400, 100000), batch=150)
+    explore(ctx, "invalid", MU.invalid_case(), check_invalid, ctx.n(1600, 50000), batch=100)
 
 
 def replay(sub, case, ctx: Ctx):
